@@ -21,7 +21,9 @@ CASE_TIMEOUT = 240
 BATCH_SIZE = {'quick': 2, 'thorough': 8}
 REQUIRED_COUNTERS = ['chains_completed', 'centroid_node_pairs_checked',
                      'stage_handoffs_observed', 'draws_checked',
-                     'chains_with_a_node_wider_than_4x_reported_candidates']
+                     'chains_with_a_node_wider_than_4x_reported_candidates',
+                     'chains_with_a_parent_of_one_leaf_children',
+                     'chains_at_factor_one_with_several_iterations']
 RULE = ('case = generated labelled reference (separable clusters, 2-4 '
         'levels, 5-9 leaves, leaf names in non-alphabetical creation order) '
         'pushed through statistics -> reference markers (direct route, or '
@@ -51,7 +53,8 @@ def gen_cases(tier, seed):
             'seed': int(rng.integers(2 ** 31)),
             'n_levels': int(rng.integers(2, 5)),
             'n_leaves': int(rng.integers(5, 10)),
-            'factor': float(rng.choice([0.3, 0.5, 0.7, 0.9, 1.0])),
+            'factor': [0.3, 0.5, 0.7, 0.9, 1.0][
+                (i + seed) % 5],
             'iterations': int(rng.choice([5, 20, 50])),
             'route': 'pmask' if i % 3 == 2 else 'direct',
             'ref_encoding': str(rng.choice(['dense', 'csr', 'csc'])),
@@ -59,6 +62,11 @@ def gen_cases(tier, seed):
             'n_per_utility': int(rng.integers(2, 8)),
             'rng_seed': int(rng.integers(2 ** 31)),
         })
+        if i % 4 == 1:
+            # a parent all of whose children own exactly one leaf (votes
+            # are then not aggregated), next to one with a two-leaf child
+            cases[-1].update({'n_levels': 3, 'n_leaves': 7,
+                              'one_leaf_children': True})
         if i % 4 == 3:
             # a wide node: one parent with far more children than
             # runners-up are reported
@@ -213,12 +221,24 @@ def run_case(spec, work):
 
     def bump(k, n=1):
         counters[k] = counters.get(k, 0) + n
-    ref = pw.make_reference(rng, work, n_levels=spec['n_levels'],
+    forest = None
+    if spec.get('one_leaf_children'):
+        one = ((),)
+        forest = ((one, one, one, one), (((), ()), one))
+        bump('chains_with_a_parent_of_one_leaf_children')
+    if spec.get('wide'):
+        na = int(rng.integers(14, 20))
+        forest = (tuple(() for _ in range(na)),
+                  tuple(() for _ in range(spec['n_leaves'] - na)))
+    ref = pw.make_reference(rng, work, forest=forest,
+                            n_levels=spec['n_levels'],
                             n_leaves=spec['n_leaves'],
                             n_genes=(int(rng.integers(30, 60))
                                      if not spec.get('wide') else 90),
                             cells_per_leaf=(8, 14),
                             encoding=spec['ref_encoding'])
+    if spec['factor'] == 1.0 and spec['iterations'] > 1:
+        bump('chains_at_factor_one_with_several_iterations')
     model = ref.model
     widest = max(len(model.children(lv, n)) for lv in [None] +
                  model.hierarchy[:-1]
